@@ -1524,6 +1524,58 @@ func TestVerifEnum(t *testing.T) {
 		}
 	}
 
+	// 6b. every byte value at several places of a valid document ------------------------------------
+	begin("bytes", "a valid two-element document (3 kB payload) with each of the 256 byte values, and each ordered pair of 12 special bytes, inserted right after the version byte, inside the base64 text, at the end of a pre element's text, between two pre elements and before the first: data or error, no panic, no hang (watchdog)")
+	{
+		pl := make([]byte, 3000)
+		for i := range pl {
+			pl[i] = byte(i*31 + 7)
+		}
+		doc, err := encode(pl, nil)
+		spans, _, sig, _ := parseArmor(doc)
+		if err != nil || sig != "" || len(spans) < 1 {
+			r.Incomplete("bytes: cannot build the base document")
+		} else {
+			first := spans[0]
+			places := []struct {
+				name string
+				pos  int
+			}{{"after-version-byte", first.textStart + 1}, {"inside-base64", first.textStart + (first.textEnd-first.textStart)/2}, {"end-of-pre-text", first.textEnd}, {"after-the-pre-element", first.close}, {"before-first-pre", first.open}}
+			special := []byte{0x00, 0x09, 0x0a, 0x0b, 0x0c, 0x0d, 0x20, 0x85, 0xa0, '<', '&', '='}
+			var inserts [][]byte
+			for b := 0; b < 256; b++ {
+				inserts = append(inserts, []byte{byte(b)})
+			}
+			for _, a := range special {
+				for _, b := range special {
+					inserts = append(inserts, []byte{a, b})
+				}
+			}
+			for _, pc := range places {
+				for _, ins := range inserts {
+					if !r.Mine() || h.hung["bytes"] {
+						continue
+					}
+					in := append(append(append([]byte{}, doc[:pc.pos]...), ins...), doc[pc.pos:]...)
+					pc, ins := pc, ins
+					input := func() interface{} {
+						return map[string]interface{}{"place": pc.name, "inserted": fmt.Sprintf("%q", ins)}
+					}
+					r.Case(fmt.Sprintf("by|%s|%x", pc.name, ins), true)
+					o := h.guard("bytes", input, func() *result { return totalityRun(in) })
+					if o == nil {
+						continue
+					}
+					if o.panicked {
+						r.Fail("bytes:panic@"+en.PanicSite(o.stack), "decoder panicked: "+o.pval+" "+o.stack, input())
+					} else if o.alt != nil && o.alt.panicked {
+						r.Fail("bytes:panic@"+en.PanicSite(o.alt.stack), "decoder panicked (one-byte reads): "+o.alt.pval+" "+o.alt.stack, input())
+					}
+				}
+			}
+		}
+	}
+
 	// 7. totality on token strings ---------------------------------------------------------------
 	maxTok := 5
 	if thorough {
